@@ -174,6 +174,12 @@ fn directive_table() -> Vec<String> {
         "'a'\n\n",
         "[a]\n\n",
         "k: v\n\n\n",
+        // JSON-like forms whose ':' is adjacent to the value (the scanner remembers where that is allowed)
+        "{\"a\":[b]}\n",
+        "[{\"k\":{\"a\":1}}]\n",
+        "{\"a\":\"b\",'c':d}\n",
+        "[\"a\":b]\n",
+        "{[a]:b, {c: d}:e}\n",
     ]
     .iter()
     .map(|s| s.to_string())
